@@ -1,0 +1,16 @@
+//go:build verif
+
+package klog
+
+import "github.com/jotaen/klog/klog/app"
+
+// VerifContextWrapper lets a verification harness substitute the runtime context
+// (clock, stdout) that `Run` hands to the commands. Only present with build tag `verif`.
+var VerifContextWrapper func(app.Context) app.Context
+
+func verifWrapContext(ctx app.Context) app.Context {
+	if VerifContextWrapper != nil {
+		return VerifContextWrapper(ctx)
+	}
+	return ctx
+}
